@@ -297,7 +297,8 @@ def okReach (G : CFG) (rankR : AList CNT Nat) : Bool :=
     G.rules.any (fun e' => e'.2.any (fun r => r.2.1.any (fun a => toNT a == e.1)) && rankLt rankR e'.1 e.1))
 
 def okProd (G : CFG) (rankP : AList CNT Nat) : Bool :=
-  G.rules.all (fun e => e.2.any (fun r => r.2.1.all (fun a => rankLt rankP (toNT a) e.1)))
+  G.rules.all (fun e => e.2.any (fun r =>
+    AList.lookup r.1 e.2 == some r.2 && r.2.1.all (fun a => isKey G a && rankLt rankP (toNT a) e.1)))
 
 def tableOK (P : Params) (G : CFG) (dead : List CNT) (rankR rankP : AList CNT Nat) : Bool :=
   okStart P G && okRules P G dead && deadOK P dead && okReach G rankR && okProd G rankP
